@@ -231,6 +231,19 @@ fn history(seed: u64, st: &mut Stats, max_users: usize) {
                         fail(st, "unknown-id-refresh-panics", out.describe(), seed);
                         return;
                     }
+                    // refused: the id must still be unknown afterwards (a retry is refused too, and
+                    // the registry did not grow)
+                    let users_after = ser(&old).ok().and_then(|b| WMsk::parse(&b).ok()).map(|w| w.users.len());
+                    if users_after != Some(old_users.len()) {
+                        fail(st, "refused-refresh-registers-the-unknown-id", format!("registry went from {} to {:?} ids", old_users.len(), users_after), seed);
+                        return;
+                    }
+                    let mut copy2 = u.clone();
+                    if call(|| h.cc.refresh_usk(&mut old, &mut copy2, keep)).is_ok() {
+                        fail(st, "unknown-id-accepted-on-retry", "the second attempt with the same unknown key succeeded".into(), seed);
+                        return;
+                    }
+                    st.bump("unknown_id_refresh_attempts");
                     break;
                 }
             }
